@@ -349,7 +349,7 @@ def _get(o, a):
             warnings.simplefilter("ignore")
             return _norm(getattr(o, a))
     except UnsupportedAttributeError:
-        return "<unsupported>"
+        return None          # "unavailable" and "reads as None" are the two admissible faces of a version-gated attribute (C15)
 
 
 def unset_aa_effects(scn):
@@ -384,9 +384,9 @@ def dump_managers(scn):
     um = scn.unit_manager
     d["units"] = [[{a: _get(u, a) for a in UNIT_ATTRS + ["reference_id", "player", "caption_string_id"]} for u in lst] for lst in um.units]
     mm = scn.map_manager
-    d["map"] = {"map_size": mm.map_size, "terrain": [[t.terrain_id, t.elevation, t.layer] for t in mm.terrain],
-                "map_color_mood": _get(mm, "map_color_mood") if hasattr(type(mm), "map_color_mood") else None,
-                "collide_and_correct": _get(mm, "collide_and_correct"), "villager_force_drop": _get(mm, "villager_force_drop")}
+    # (MapManagerDE.collide_and_correct / villager_force_drop are deprecated aliases "moved to the OptionManager": not dumped)
+    d["map"] = {"map_size": mm.map_size, "terrain": [[_norm(t.terrain_id), _norm(t.elevation), _norm(t.layer)] for t in mm.terrain],
+                "map_color_mood": _get(mm, "_map_color_mood")}
     pm = scn.player_manager
     d["players"] = [{a: _get(p, a) for a in PLAYER_ATTRS_ALL + ["active", "lock_personality", "architecture_set"] +
                      (PLAYER_ATTRS_NON_GAIA + PLAYER_ATTRS_DEPRECATED + ["disabled_techs", "disabled_buildings", "disabled_units", "diplomacy",
